@@ -19,6 +19,8 @@ func init() {
 }
 
 func runC05(c *Ctx) {
+	c.Rule("R10", "memory of an object recycled through a sync.Pool never leaves its Get/Put window (returned, stored outside the function, sent)", 1)
+	poolEscapes(c, "R10", []string{"consensus", "balloon", "balloon/history", "balloon/hyper", "api/apihttp"})
 	c.Rule("R1", "Balloon.version accessed only under the balloon lock (writes exclusive)", 1)
 	c.Rule("R2", "Add: issued version = old counter, counter+1; AddBulk: counter+len(bulk)", 2)
 	c.Rule("R3", "bulk paths: digest, history root and version of element i use the same index", 4)
